@@ -25,6 +25,16 @@ typedef(LH, 'Hypergraph')
 typedef(LO, 'OpenHypergraph')
 
 raw(r'''
+// #[derive(Clone)] of /repo on Hyperedge: field-wise clone (trusted, as for VecArray)
+impl Clone for Hyperedge {
+    #[verifier::external_body]
+    fn clone(&self) -> (r: Self)
+        ensures r.sources@ == self.sources@, r.targets@ == self.targets@
+    { Hyperedge { sources: self.sources.clone(), targets: self.targets.clone() } }
+}
+''', tag='T:derive-clone-Hyperedge')
+
+raw(r'''
 /// the node numbers behind a list of node ids
 pub open spec fn ids(v: Seq<NodeId>) -> Seq<usize> { Seq::new(v.len(), |i: int| v[i].0) }
 pub open spec fn ids_ok(v: Seq<NodeId>, n: int) -> bool { forall|i: int| 0 <= i < v.len() ==> (#[trigger] v[i]).0 < n }
@@ -279,12 +289,12 @@ endgroup()
 
 LC = 'src/lax/category.rs'
 group('impl<O: Clone + PartialEq, A: Clone> OpenHypergraph<O, A>')
-fn(LC, 'source', trait='Arrow', self_ty='OpenHypergraph', status='P', props=['C10', 'C05'], rename='lax_source', rules={'t9': True, 'subst': {'Self::Object': 'Vec<O>'}},
+fn(LC, 'source', trait='Arrow', self_ty='OpenHypergraph', status='P', props=['C10', 'C05'], rules={'t9': True, 'subst': {'Self::Object': 'Vec<O>'}},
    requires=['self.wf()'],
    ensures=[('C10.lax-source', 'r@.len() == self.sources@.len() && (lawful_clone::<O>() ==> forall|k: int| 0 <= k < self.sources@.len() ==> r@[k] == self.hypergraph.nodes@[self.sources@[k].0 as int])')],
    loops={1: {'iter': 'it', 'elem_ty': 'O', 'invariant': ['self.wf()', 'vx_v1@.len() == it.index@', 'it.seq().len() == self.sources@.len()', 'forall|k: int| 0 <= k < self.sources@.len() ==> *it.seq()[k] == self.sources@[k]',
                                          'lawful_clone::<O>() ==> forall|k: int| 0 <= k < it.index@ ==> vx_v1@[k] == self.hypergraph.nodes@[self.sources@[k].0 as int]']}})
-fn(LC, 'target', trait='Arrow', self_ty='OpenHypergraph', status='P', props=['C10', 'C05'], rename='lax_target', rules={'t9': True, 'subst': {'Self::Object': 'Vec<O>'}},
+fn(LC, 'target', trait='Arrow', self_ty='OpenHypergraph', status='P', props=['C10', 'C05'], rules={'t9': True, 'subst': {'Self::Object': 'Vec<O>'}},
    requires=['self.wf()'],
    ensures=[('C10.lax-target', 'r@.len() == self.targets@.len() && (lawful_clone::<O>() ==> forall|k: int| 0 <= k < self.targets@.len() ==> r@[k] == self.hypergraph.nodes@[self.targets@[k].0 as int])')],
    loops={1: {'iter': 'it', 'elem_ty': 'O', 'invariant': ['self.wf()', 'vx_v1@.len() == it.index@', 'it.seq().len() == self.targets@.len()', 'forall|k: int| 0 <= k < self.targets@.len() ==> *it.seq()[k] == self.targets@[k]',
@@ -909,3 +919,544 @@ fn(LO, 'map_edges', self_ty='OpenHypergraph', status='P', props=['C11'],
                 && r.hypergraph.nodes == self.hypergraph.nodes && r.hypergraph.adjacency == self.hypergraph.adjacency && r.hypergraph.quotient == self.hypergraph.quotient
                 && r.sources == self.sources && r.targets == self.targets''')])
 endgroup()
+
+# ---------------------------------------------------------------------------------------------
+# C02 (lax part) / C10: coproduct and tensor of lax diagrams are juxtaposition: the second operand's node references shifted
+# by the first operand's node count, everything concatenated (rule T20: chain + collect)
+# ---------------------------------------------------------------------------------------------
+raw(r'''
+pub open spec fn shift_ids(v: Seq<NodeId>, n: int) -> Seq<NodeId> { Seq::new(v.len(), |i: int| NodeId((v[i].0 + n) as usize)) }
+pub open spec fn shift_edge_ok(e: Hyperedge, n: int) -> bool {
+    (forall|i: int| 0 <= i < e.sources@.len() ==> (#[trigger] e.sources@[i]).0 + n <= usize::MAX) && (forall|i: int| 0 <= i < e.targets@.len() ==> (#[trigger] e.targets@[i]).0 + n <= usize::MAX)
+}
+''')
+fn(LH, 'finite_function_coproduct', kind='free', status='P', props=['C10', 'C02'], rules={'t20': True},
+   requires=['forall|i: int| 0 <= i < v2@.len() ==> (#[trigger] v2@[i]).0 + target <= usize::MAX'],
+   ensures=[('C10.ff-coproduct', 'r@ =~= v1@ + shift_ids(v2@, target as int)')],
+   loops={1: {'iter': 'it', 'elem_ty': 'NodeId', 'invariant': ['it.seq().len() == v1@.len()', 'forall|k: int| 0 <= k < v1@.len() ==> *it.seq()[k] == v1@[k]', 'vx_v1@ =~= v1@.subrange(0, it.index@ as int)'],
+              'body_pre': 'proof { assert(*vx_c1 == v1@[it.index@ as int]); }'},
+          2: {'iter': 'it', 'invariant': ['it.seq().len() == v2@.len()', 'forall|k: int| 0 <= k < v2@.len() ==> *it.seq()[k] == v2@[k]',
+                                         'forall|i: int| 0 <= i < v2@.len() ==> (#[trigger] v2@[i]).0 + target <= usize::MAX',
+                                         'vx_v1@ =~= v1@ + shift_ids(v2@, target as int).subrange(0, it.index@ as int)'],
+              'body_pre': 'proof { assert(*s_ref == v2@[it.index@ as int]); }'}})
+fn(LH, 'concat', kind='free', status='P', props=['C10', 'C02'], rules={'t20': True},
+   ensures=[('C10.concat', 'r@.len() == v1@.len() + v2@.len() && (lawful_clone::<T>() ==> r@ =~= v1@ + v2@)')],
+   loops={1: {'iter': 'it', 'elem_ty': 'T', 'invariant': ['it.seq().len() == v1@.len()', 'forall|k: int| 0 <= k < v1@.len() ==> *it.seq()[k] == v1@[k]', 'vx_v1@.len() == it.index@',
+                                                         'lawful_clone::<T>() ==> vx_v1@ =~= v1@.subrange(0, it.index@ as int)'],
+              'body_pre': 'proof { assert(*vx_c1 == v1@[it.index@ as int]); }'},
+          2: {'iter': 'it', 'invariant': ['it.seq().len() == v2@.len()', 'forall|k: int| 0 <= k < v2@.len() ==> *it.seq()[k] == v2@[k]', 'vx_v1@.len() == v1@.len() + it.index@',
+                                         'lawful_clone::<T>() ==> vx_v1@ =~= v1@ + v2@.subrange(0, it.index@ as int)'],
+              'body_pre': 'proof { assert(*vx_c2 == v2@[it.index@ as int]); }'}})
+
+raw(r'''
+pub open spec fn shift_edge(e: Hyperedge, n: int) -> (Seq<NodeId>, Seq<NodeId>) { (shift_ids(e.sources@, n), shift_ids(e.targets@, n)) }
+/// C02 / C10: r is the juxtaposition of the lax hypergraphs a and b
+pub open spec fn is_lax_coproduct<O, A>(r: Hypergraph<O, A>, a: Hypergraph<O, A>, b: Hypergraph<O, A>) -> bool {
+    let n = a.nodes@.len() as int; let m = a.adjacency@.len() as int;
+    &&& r.nodes@.len() == a.nodes@.len() + b.nodes@.len() && r.edges@.len() == a.edges@.len() + b.edges@.len()
+    &&& r.adjacency@.len() == a.adjacency@.len() + b.adjacency@.len()
+    &&& (forall|j: int| 0 <= j < m ==> (#[trigger] r.adjacency@[j]).sources@ == a.adjacency@[j].sources@ && r.adjacency@[j].targets@ == a.adjacency@[j].targets@)
+    &&& (forall|j: int| 0 <= j < b.adjacency@.len() ==> (#[trigger] r.adjacency@[m + j]).sources@ =~= shift_ids(b.adjacency@[j].sources@, n) && r.adjacency@[m + j].targets@ =~= shift_ids(b.adjacency@[j].targets@, n))
+    &&& r.quotient.0@ =~= a.quotient.0@ + shift_ids(b.quotient.0@, n) && r.quotient.1@ =~= a.quotient.1@ + shift_ids(b.quotient.1@, n)
+}
+''')
+
+group('impl<O: Clone, A: Clone> Hypergraph<O, A>')
+fn(LH, 'coproduct', self_ty='Hypergraph', status='P', props=['C10', 'C02'], rules={'t9': True, 't20': True},
+   requires=['self.wf()', 'other.wf()', 'self.nodes@.len() + other.nodes@.len() <= usize::MAX'],
+   ensures=[('C10.lax-coproduct', 'is_lax_coproduct(r, *self, *other)'),
+            ('C10.lax-coproduct-labels', '(lawful_clone::<O>() ==> r.nodes@ =~= self.nodes@ + other.nodes@) && (lawful_clone::<A>() ==> r.edges@ =~= self.edges@ + other.edges@)'),
+            ('C10.lax-coproduct-wf', 'r.wf()')],
+   loops={1: {'iter': 'it1', 'elem_ty': 'NodeId', 'invariant': ['n == self.nodes@.len()', 'n + other.nodes@.len() <= usize::MAX', 'ids_ok(edge.sources@, other.nodes@.len() as int)',
+                                                               'it1.seq().len() == edge.sources@.len()', 'forall|k: int| 0 <= k < edge.sources@.len() ==> *it1.seq()[k] == edge.sources@[k]',
+                                                               'vx_v1@ =~= shift_ids(edge.sources@, n as int).subrange(0, it1.index@ as int)'],
+              'body_pre': 'proof { assert(*s_ref == edge.sources@[it1.index@ as int]); }'},
+          2: {'iter': 'it2', 'elem_ty': 'NodeId', 'invariant': ['n == self.nodes@.len()', 'n + other.nodes@.len() <= usize::MAX', 'ids_ok(edge.targets@, other.nodes@.len() as int)',
+                                                               'it2.seq().len() == edge.targets@.len()', 'forall|k: int| 0 <= k < edge.targets@.len() ==> *it2.seq()[k] == edge.targets@[k]',
+                                                               'vx_v2@ =~= shift_ids(edge.targets@, n as int).subrange(0, it2.index@ as int)'],
+              'body_pre': 'proof { assert(*t_ref == edge.targets@[it2.index@ as int]); }'},
+          3: {'iter': 'it', 'elem_ty': 'Hyperedge', 'invariant': ['it.seq().len() == self.adjacency@.len()', 'forall|k: int| 0 <= k < self.adjacency@.len() ==> *it.seq()[k] == self.adjacency@[k]',
+                                                                 'vx_v3@.len() == it.index@',
+                                                                 'forall|j: int| 0 <= j < it.index@ ==> (#[trigger] vx_v3@[j]).sources@ == self.adjacency@[j].sources@ && vx_v3@[j].targets@ == self.adjacency@[j].targets@'],
+              'body_pre': 'proof { assert(*vx_c3 == self.adjacency@[it.index@ as int]); }'},
+          4: {'iter': 'it', 'invariant': ['n == self.nodes@.len()', 'n + other.nodes@.len() <= usize::MAX', 'other.wf()',
+                                         'it.seq().len() == other.adjacency@.len()', 'forall|k: int| 0 <= k < other.adjacency@.len() ==> *it.seq()[k] == other.adjacency@[k]',
+                                         'vx_v3@.len() == self.adjacency@.len() + it.index@',
+                                         'forall|j: int| 0 <= j < self.adjacency@.len() ==> (#[trigger] vx_v3@[j]).sources@ == self.adjacency@[j].sources@ && vx_v3@[j].targets@ == self.adjacency@[j].targets@',
+                                         'forall|j: int| 0 <= j < it.index@ ==> (#[trigger] vx_v3@[self.adjacency@.len() + j]).sources@ =~= shift_ids(other.adjacency@[j].sources@, n as int) && vx_v3@[self.adjacency@.len() + j].targets@ =~= shift_ids(other.adjacency@[j].targets@, n as int)'],
+              'body_pre': 'proof { assert(*edge == other.adjacency@[it.index@ as int]); }'}},
+   proofs=[('end', '''let nn = (self.nodes@.len() + other.nodes@.len()) as int; let m = self.adjacency@.len() as int; let n0 = self.nodes@.len() as int;
+            assert forall|j: int| 0 <= j < adjacency@.len() implies ids_ok((#[trigger] adjacency@[j]).sources@, nn) && ids_ok(adjacency@[j].targets@, nn) by {
+                if j < m { assert(ids_ok(self.adjacency@[j].sources@, n0) && ids_ok(self.adjacency@[j].targets@, n0)); }
+                else { let j2 = j - m; assert(adjacency@[m + j2].sources@ =~= shift_ids(other.adjacency@[j2].sources@, n0));
+                       assert(ids_ok(other.adjacency@[j2].sources@, other.nodes@.len() as int) && ids_ok(other.adjacency@[j2].targets@, other.nodes@.len() as int));
+                       assert forall|i: int| 0 <= i < adjacency@[j].sources@.len() implies (#[trigger] adjacency@[j].sources@[i]).0 < nn by { assert(shift_ids(other.adjacency@[j2].sources@, n0)[i].0 == other.adjacency@[j2].sources@[i].0 + n0); }
+                       assert forall|i: int| 0 <= i < adjacency@[j].targets@.len() implies (#[trigger] adjacency@[j].targets@[i]).0 < nn by { assert(shift_ids(other.adjacency@[j2].targets@, n0)[i].0 == other.adjacency@[j2].targets@[i].0 + n0); }
+                }
+            }
+            assert forall|i: int| 0 <= i < quotient.0@.len() implies (#[trigger] quotient.0@[i]).0 < nn by {
+                if i >= self.quotient.0@.len() { assert(shift_ids(other.quotient.0@, n0)[i - self.quotient.0@.len()].0 == other.quotient.0@[i - self.quotient.0@.len()].0 + n0); }
+            }
+            assert forall|i: int| 0 <= i < quotient.1@.len() implies (#[trigger] quotient.1@[i]).0 < nn by {
+                if i >= self.quotient.1@.len() { assert(shift_ids(other.quotient.1@, n0)[i - self.quotient.1@.len()].0 == other.quotient.1@[i - self.quotient.1@.len()].0 + n0); }
+            }''')])
+endgroup()
+
+raw(r'''
+/// C02 (lax): r is the tensor (juxtaposition) of the lax diagrams a and b
+pub open spec fn is_lax_tensor<O, A>(r: OpenHypergraph<O, A>, a: OpenHypergraph<O, A>, b: OpenHypergraph<O, A>) -> bool {
+    let n = a.hypergraph.nodes@.len() as int;
+    &&& is_lax_coproduct(r.hypergraph, a.hypergraph, b.hypergraph)
+    &&& r.sources@ =~= a.sources@ + shift_ids(b.sources@, n) && r.targets@ =~= a.targets@ + shift_ids(b.targets@, n)
+}
+''')
+group('impl<O: Clone, A: Clone> OpenHypergraph<O, A>')
+fn(LO, 'tensor', self_ty='OpenHypergraph', status='P', props=['C10', 'C02'], rules={'t20': True},
+   requires=['self.wf()', 'other.wf()', 'self.hypergraph.nodes@.len() + other.hypergraph.nodes@.len() <= usize::MAX'],
+   ensures=[('C02.lax-tensor', 'is_lax_tensor(r, *self, *other)'),
+            ('C02.lax-tensor-labels', '(lawful_clone::<O>() ==> r.hypergraph.nodes@ =~= self.hypergraph.nodes@ + other.hypergraph.nodes@) && (lawful_clone::<A>() ==> r.hypergraph.edges@ =~= self.hypergraph.edges@ + other.hypergraph.edges@)'),
+            ('C02.lax-tensor-wf', 'r.wf()')],
+   loops={1: {'iter': 'it', 'elem_ty': 'NodeId', 'invariant': ['it.seq().len() == self.sources@.len()', 'forall|k: int| 0 <= k < self.sources@.len() ==> *it.seq()[k] == self.sources@[k]', 'vx_v1@ =~= self.sources@.subrange(0, it.index@ as int)'],
+              'body_pre': 'proof { assert(*vx_c1 == self.sources@[it.index@ as int]); }'},
+          2: {'iter': 'it', 'invariant': ['n == self.hypergraph.nodes@.len()', 'n + other.hypergraph.nodes@.len() <= usize::MAX', 'ids_ok(other.sources@, other.hypergraph.nodes@.len() as int)',
+                                         'it.seq().len() == other.sources@.len()', 'forall|k: int| 0 <= k < other.sources@.len() ==> *it.seq()[k] == other.sources@[k]',
+                                         'vx_v1@ =~= self.sources@ + shift_ids(other.sources@, n as int).subrange(0, it.index@ as int)'],
+              'body_pre': 'proof { assert(*i_ref == other.sources@[it.index@ as int]); }'},
+          3: {'iter': 'it', 'elem_ty': 'NodeId', 'invariant': ['it.seq().len() == self.targets@.len()', 'forall|k: int| 0 <= k < self.targets@.len() ==> *it.seq()[k] == self.targets@[k]', 'vx_v3@ =~= self.targets@.subrange(0, it.index@ as int)'],
+              'body_pre': 'proof { assert(*vx_c3 == self.targets@[it.index@ as int]); }'},
+          4: {'iter': 'it', 'invariant': ['n == self.hypergraph.nodes@.len()', 'n + other.hypergraph.nodes@.len() <= usize::MAX', 'ids_ok(other.targets@, other.hypergraph.nodes@.len() as int)',
+                                         'it.seq().len() == other.targets@.len()', 'forall|k: int| 0 <= k < other.targets@.len() ==> *it.seq()[k] == other.targets@[k]',
+                                         'vx_v3@ =~= self.targets@ + shift_ids(other.targets@, n as int).subrange(0, it.index@ as int)'],
+              'body_pre': 'proof { assert(*i_ref == other.targets@[it.index@ as int]); }'}},
+   proofs=[('end', '''let nn = (self.hypergraph.nodes@.len() + other.hypergraph.nodes@.len()) as int; let n0 = self.hypergraph.nodes@.len() as int;
+            assert forall|i: int| 0 <= i < sources@.len() implies (#[trigger] sources@[i]).0 < nn by {
+                if i >= self.sources@.len() { assert(shift_ids(other.sources@, n0)[i - self.sources@.len()].0 == other.sources@[i - self.sources@.len()].0 + n0); }
+            }
+            assert forall|i: int| 0 <= i < targets@.len() implies (#[trigger] targets@[i]).0 < nn by {
+                if i >= self.targets@.len() { assert(shift_ids(other.targets@, n0)[i - self.targets@.len()].0 == other.targets@[i - self.targets@.len()].0 + n0); }
+            }''')])
+endgroup()
+
+raw(r'''
+/// C10: r is the unchecked lax composite of a and b: their juxtaposition, with output k of a and input k of b recorded as a pending
+/// unification, inputs of a and outputs of b as interfaces
+pub open spec fn is_lax_compose<O, A>(r: OpenHypergraph<O, A>, a: OpenHypergraph<O, A>, b: OpenHypergraph<O, A>) -> bool {
+    let n = a.hypergraph.nodes@.len() as int; let m = a.hypergraph.adjacency@.len() as int;
+    &&& r.hypergraph.nodes@.len() == a.hypergraph.nodes@.len() + b.hypergraph.nodes@.len() && r.hypergraph.edges@.len() == a.hypergraph.edges@.len() + b.hypergraph.edges@.len()
+    &&& r.hypergraph.adjacency@.len() == a.hypergraph.adjacency@.len() + b.hypergraph.adjacency@.len()
+    &&& (forall|j: int| 0 <= j < m ==> (#[trigger] r.hypergraph.adjacency@[j]).sources@ == a.hypergraph.adjacency@[j].sources@ && r.hypergraph.adjacency@[j].targets@ == a.hypergraph.adjacency@[j].targets@)
+    &&& (forall|j: int| 0 <= j < b.hypergraph.adjacency@.len() ==> (#[trigger] r.hypergraph.adjacency@[m + j]).sources@ =~= shift_ids(b.hypergraph.adjacency@[j].sources@, n)
+            && r.hypergraph.adjacency@[m + j].targets@ =~= shift_ids(b.hypergraph.adjacency@[j].targets@, n))
+    &&& r.hypergraph.quotient.0@ =~= a.hypergraph.quotient.0@ + shift_ids(b.hypergraph.quotient.0@, n) + a.targets@
+    &&& r.hypergraph.quotient.1@ =~= a.hypergraph.quotient.1@ + shift_ids(b.hypergraph.quotient.1@, n) + shift_ids(b.sources@, n)
+    &&& r.sources@ =~= a.sources@ && r.targets@ =~= shift_ids(b.targets@, n)
+}
+''')
+group('impl<O: Clone, A: Clone> OpenHypergraph<O, A>')
+fn(LC, 'lax_compose', self_ty='OpenHypergraph', status='P', props=['C10'], rules={'t20': True},
+   requires=['self.wf()', 'other.wf()', 'self.hypergraph.nodes@.len() + other.hypergraph.nodes@.len() <= usize::MAX'],
+   ensures=[('C10.lax_compose-defined', 'r.is_some() <==> self.targets@.len() == other.sources@.len()'),
+            ('C10.lax_compose', 'r.is_some() ==> is_lax_compose(r.unwrap(), *self, *other)'),
+            ('C10.lax_compose-labels', 'r.is_some() ==> (lawful_clone::<O>() ==> r.unwrap().hypergraph.nodes@ =~= self.hypergraph.nodes@ + other.hypergraph.nodes@) && (lawful_clone::<A>() ==> r.unwrap().hypergraph.edges@ =~= self.hypergraph.edges@ + other.hypergraph.edges@)'),
+            ('C10.lax_compose-wf', 'r.is_some() ==> r.unwrap().wf()')],
+   loops={1: {'iter': 'it', 'invariant': ['n == self.hypergraph.nodes@.len()', 'n + other.hypergraph.nodes@.len() <= usize::MAX', 'self.wf() && other.wf()', 'self.targets@.len() == other.sources@.len()',
+                                         'it.seq().len() == self.targets@.len()', 'forall|k: int| 0 <= k < self.targets@.len() ==> *(#[trigger] it.seq()[k]).0 == self.targets@[k]',
+                                         'forall|k: int| 0 <= k < self.targets@.len() ==> *(#[trigger] it.seq()[k]).1 == other.sources@[k]',
+                                         'f.hypergraph.nodes == t0.hypergraph.nodes && f.hypergraph.edges == t0.hypergraph.edges && f.hypergraph.adjacency == t0.hypergraph.adjacency && f.sources == t0.sources && f.targets == t0.targets',
+                                         'f.hypergraph.quotient.0@ =~= t0.hypergraph.quotient.0@ + self.targets@.subrange(0, it.index@ as int)',
+                                         'f.hypergraph.quotient.1@ =~= t0.hypergraph.quotient.1@ + shift_ids(other.sources@, n as int).subrange(0, it.index@ as int)']},
+          2: {'elem_ty': 'NodeId', 'invariant': ['k0 <= vx_k2 <= tg1.len()', 'f.targets@ == tg1', 'vx_v2@ =~= tg1.subrange(k0 as int, vx_k2 as int)'], 'decreases': 'tg1.len() - vx_k2'}},
+   proofs=[G('after:let mut f = self.tensor(other);', 'let ghost t0 = f;'),
+           ('before:f.unify(*u, NodeId(v.0 + n));', '''assert(*u == self.targets@[it.index@ as int] && *v == other.sources@[it.index@ as int]); assert(v.0 < other.hypergraph.nodes@.len());'''),
+           G('before:f.targets = f.targets', 'let ghost tg1 = f.targets@; let ghost k0 = self.targets@.len();'),
+           ('end', '''let nn = (self.hypergraph.nodes@.len() + other.hypergraph.nodes@.len()) as int; let n0 = self.hypergraph.nodes@.len() as int;
+            assert(f.targets@ =~= shift_ids(other.targets@, n0));
+            assert(f.sources@ =~= self.sources@);
+            assert forall|i: int| 0 <= i < f.hypergraph.quotient.0@.len() implies (#[trigger] f.hypergraph.quotient.0@[i]).0 < nn by {
+                let l0 = t0.hypergraph.quotient.0@.len() as int;
+                if i >= l0 { assert(f.hypergraph.quotient.0@[i] == self.targets@[i - l0]); } else { assert(f.hypergraph.quotient.0@[i] == t0.hypergraph.quotient.0@[i]); }
+            }
+            assert forall|i: int| 0 <= i < f.hypergraph.quotient.1@.len() implies (#[trigger] f.hypergraph.quotient.1@[i]).0 < nn by {
+                let l1 = t0.hypergraph.quotient.1@.len() as int;
+                if i >= l1 { assert(f.hypergraph.quotient.1@[i] == shift_ids(other.sources@, n0)[i - l1]); } else { assert(f.hypergraph.quotient.1@[i] == t0.hypergraph.quotient.1@[i]); }
+            }
+            assert forall|i: int| 0 <= i < f.targets@.len() implies (#[trigger] f.targets@[i]).0 < nn by { assert(f.targets@[i] == shift_ids(other.targets@, n0)[i]); }''')])
+endgroup()
+
+raw(r'''
+// ---------------------------------------------------------------------------------------------
+// C10, second sentence (for operands without pending unifications): strictification commutes with composition ON THE NOSE --
+// the strictified lax composite satisfies the contract of the strict composition of the strictified operands (it IS a pushout of
+// them), hence is isomorphic to whatever strict `compose` returns (lemma_compose_unique)
+// ---------------------------------------------------------------------------------------------
+/// the strict diagram sv has exactly the data of the (quotient-free) lax diagram l
+pub open spec fn is_strict_view<O, A>(sv: crate::open_hypergraph::OpenHypergraph<O, A>, l: OpenHypergraph<O, A>) -> bool {
+    &&& sv.wf() && is_strict_of(sv.h, l.hypergraph)
+    &&& sv.s.table@ =~= ids(l.sources@) && sv.t.table@ =~= ids(l.targets@)
+    &&& sv.h.w@ == l.hypergraph.nodes@ && sv.h.x@ == l.hypergraph.edges@
+}
+
+pub proof fn lemma_strict_lax_compose<O: Clone, A: Clone>(f: OpenHypergraph<O, A>, g: OpenHypergraph<O, A>, c: OpenHypergraph<O, A>,
+        s: crate::open_hypergraph::OpenHypergraph<O, A>, sf: crate::open_hypergraph::OpenHypergraph<O, A>, sg: crate::open_hypergraph::OpenHypergraph<O, A>)
+    requires f.wf(), g.wf(), lawful_clone::<O>(), lawful_clone::<A>(),
+        f.hypergraph.quotient.0@.len() == 0 && f.hypergraph.quotient.1@.len() == 0 && g.hypergraph.quotient.0@.len() == 0 && g.hypergraph.quotient.1@.len() == 0,
+        f.targets@.len() == g.sources@.len(),
+        f.hypergraph.nodes@.len() + g.hypergraph.nodes@.len() <= usize::MAX,
+        is_lax_compose(c, f, g), c.hypergraph.nodes@ =~= f.hypergraph.nodes@ + g.hypergraph.nodes@, c.hypergraph.edges@ =~= f.hypergraph.edges@ + g.hypergraph.edges@,
+        is_strictification(s, c), is_strict_view(sf, f), is_strict_view(sg, g),
+    ensures is_pushout(sf, sg, s)
+{
+    let (mid, qf) = choose|mid: OpenHypergraph<O, A>, q: FiniteFunction|
+        #[trigger] is_quotient_of(c.hypergraph, mid.hypergraph, q)
+        && mapped(c.sources@, mid.sources@, q.table@) && mapped(c.targets@, mid.targets@, q.table@)
+        && is_strict_of(s.h, mid.hypergraph) && s.s.table@ =~= ids(mid.sources@) && s.t.table@ =~= ids(mid.targets@)
+        && (lawful_clone::<O>() ==> s.h.w@ == mid.hypergraph.nodes@) && (lawful_clone::<A>() ==> s.h.x@ == mid.hypergraph.edges@);
+    let q = qf.table@; let k = qf.target as int;
+    let nf = f.hypergraph.nodes@.len() as int; let ng = g.hypergraph.nodes@.len() as int; let m = f.hypergraph.adjacency@.len() as int;
+    // the pending pairs of the lax composite are the gluing pairs of the strict composition
+    assert(ids(c.hypergraph.quotient.0@) =~= glue_left(sf)) by {
+        assert forall|j: int| 0 <= j < f.targets@.len() implies ids(c.hypergraph.quotient.0@)[j] == sf.t.table@[j] by { assert(ids(f.targets@)[j] == f.targets@[j].0); }
+    }
+    assert(ids(c.hypergraph.quotient.1@) =~= glue_right(sf, sg)) by {
+        assert forall|j: int| 0 <= j < g.sources@.len() implies ids(c.hypergraph.quotient.1@)[j] == nf + sg.s.table@[j] by {
+            assert(ids(g.sources@)[j] == g.sources@[j].0); assert(shift_ids(g.sources@, nf)[j].0 == g.sources@[j].0 + nf);
+        }
+    }
+    assert(is_coeq(q, k, glue_left(sf), glue_right(sf, sg), nf + ng));
+    // incidence: segment lengths and values
+    let sl = src_lens(mid.hypergraph.adjacency@); let tl = tgt_lens(mid.hypergraph.adjacency@);
+    let sfl = sf.h.s.sources.table@; let sgl = sg.h.s.sources.table@; let tfl = sf.h.t.sources.table@; let tgl = sg.h.t.sources.table@;
+    assert(sl =~= sfl + sgl && tl =~= tfl + tgl) by {
+        assert forall|j: int| 0 <= j < sl.len() implies sl[j] == (sfl + sgl)[j] && tl[j] == (tfl + tgl)[j] by {
+            let e = mid.hypergraph.adjacency@[j]; let ce = c.hypergraph.adjacency@[j];
+            assert(mapped(ce.sources@, e.sources@, q) && mapped(ce.targets@, e.targets@, q));
+            if j < m { assert(ce.sources@ == f.hypergraph.adjacency@[j].sources@ && ce.targets@ == f.hypergraph.adjacency@[j].targets@); }
+            else { assert(c.hypergraph.adjacency@[m + (j - m)].sources@ =~= shift_ids(g.hypergraph.adjacency@[j - m].sources@, nf)); }
+        }
+    }
+    let lf = sf.h.s.values.table@.len() as int; let lg = sg.h.s.values.table@.len() as int;
+    let mf = sf.h.t.values.table@.len() as int; let mg = sg.h.t.values.table@.len() as int;
+    assert forall|i: int| 0 <= i < lf implies s.h.s.values.table@[i] == q[sf.h.s.values.table@[i] as int] by {
+        let (j, kk) = lemma_seg_find(sfl, i);
+        lemma_psum_prefix(sl, sfl, j); lemma_psum_prefix(sl, sfl, j + 1);
+        assert(seg_at(sl, j, kk) == seg_at(sfl, j, kk));
+        assert(s.h.s.values.table@[seg_at(sl, j, kk)] == mid.hypergraph.adjacency@[j].sources@[kk].0);
+        assert(mapped(c.hypergraph.adjacency@[j].sources@, mid.hypergraph.adjacency@[j].sources@, q));
+        assert(sf.h.s.values.table@[seg_at(sfl, j, kk)] == f.hypergraph.adjacency@[j].sources@[kk].0);
+    }
+    assert forall|i: int| lf <= i < lf + lg implies s.h.s.values.table@[i] == q[nf + sg.h.s.values.table@[i - lf]] by {
+        let (j, kk) = lemma_seg_find(sgl, i - lf);
+        lemma_psum_concat(sfl, sgl, j);
+        assert(seg_at(sl, m + j, kk) == lf + seg_at(sgl, j, kk));
+        assert(s.h.s.values.table@[seg_at(sl, m + j, kk)] == mid.hypergraph.adjacency@[m + j].sources@[kk].0);
+        assert(mapped(c.hypergraph.adjacency@[m + j].sources@, mid.hypergraph.adjacency@[m + j].sources@, q));
+        assert(c.hypergraph.adjacency@[m + j].sources@ =~= shift_ids(g.hypergraph.adjacency@[j].sources@, nf));
+        assert(sg.h.s.values.table@[seg_at(sgl, j, kk)] == g.hypergraph.adjacency@[j].sources@[kk].0);
+    }
+    assert forall|i: int| 0 <= i < mf implies s.h.t.values.table@[i] == q[sf.h.t.values.table@[i] as int] by {
+        let (j, kk) = lemma_seg_find(tfl, i);
+        lemma_psum_prefix(tl, tfl, j); lemma_psum_prefix(tl, tfl, j + 1);
+        assert(seg_at(tl, j, kk) == seg_at(tfl, j, kk));
+        assert(s.h.t.values.table@[seg_at(tl, j, kk)] == mid.hypergraph.adjacency@[j].targets@[kk].0);
+        assert(mapped(c.hypergraph.adjacency@[j].targets@, mid.hypergraph.adjacency@[j].targets@, q));
+        assert(sf.h.t.values.table@[seg_at(tfl, j, kk)] == f.hypergraph.adjacency@[j].targets@[kk].0);
+    }
+    assert forall|i: int| mf <= i < mf + mg implies s.h.t.values.table@[i] == q[nf + sg.h.t.values.table@[i - mf]] by {
+        let (j, kk) = lemma_seg_find(tgl, i - mf);
+        lemma_psum_concat(tfl, tgl, j);
+        assert(seg_at(tl, m + j, kk) == mf + seg_at(tgl, j, kk));
+        assert(s.h.t.values.table@[seg_at(tl, m + j, kk)] == mid.hypergraph.adjacency@[m + j].targets@[kk].0);
+        assert(mapped(c.hypergraph.adjacency@[m + j].targets@, mid.hypergraph.adjacency@[m + j].targets@, q));
+        assert(c.hypergraph.adjacency@[m + j].targets@ =~= shift_ids(g.hypergraph.adjacency@[j].targets@, nf));
+        assert(sg.h.t.values.table@[seg_at(tgl, j, kk)] == g.hypergraph.adjacency@[j].targets@[kk].0);
+    }
+    assert forall|v: int| 0 <= v < nf + ng implies s.h.w@[q[v] as int] == jux_label(sf, sg, v) by {
+        assert(mid.hypergraph.nodes@[q[v] as int] == c.hypergraph.nodes@[v]);
+        assert(c.hypergraph.nodes@[v] == (f.hypergraph.nodes@ + g.hypergraph.nodes@)[v]);
+    }
+    assert forall|i: int| 0 <= i < sf.s.table@.len() implies s.s.table@[i] == q[sf.s.table@[i] as int] by {
+        assert(ids(mid.sources@)[i] == mid.sources@[i].0); assert(ids(f.sources@)[i] == f.sources@[i].0);
+    }
+    assert forall|i: int| 0 <= i < sg.t.table@.len() implies s.t.table@[i] == q[nf + sg.t.table@[i]] by {
+        assert(ids(mid.targets@)[i] == mid.targets@[i].0); assert(ids(g.targets@)[i] == g.targets@[i].0); assert(shift_ids(g.targets@, nf)[i].0 == g.targets@[i].0 + nf);
+    }
+    assert(s.h.x@ =~= sf.h.x@ + sg.h.x@);
+    lemma_psum_concat(sfl, sgl, sgl.len() as int); lemma_psum_concat(tfl, tgl, tgl.len() as int);
+    assert(s.h.s.values.table@.len() == lf + lg && s.h.t.values.table@.len() == mf + mg);
+    assert(q.len() == nf + ng && s.h.w@.len() == k);
+    assert(s.h.s.sources.table@ == sfl + sgl && s.h.t.sources.table@ == tfl + tgl);
+    assert(s.s.table@.len() == sf.s.table@.len() && s.t.table@.len() == sg.t.table@.len());
+    assert(is_quotient_of_jux(sf, sg, s, q, k));
+}
+''')
+
+raw(r'''
+/// the label lists of the interfaces
+pub open spec fn lax_src_type<O, A>(f: OpenHypergraph<O, A>) -> Seq<O> { Seq::new(f.sources@.len(), |k: int| f.hypergraph.nodes@[f.sources@[k].0 as int]) }
+pub open spec fn lax_tgt_type<O, A>(f: OpenHypergraph<O, A>) -> Seq<O> { Seq::new(f.targets@.len(), |k: int| f.hypergraph.nodes@[f.targets@[k].0 as int]) }
+''')
+group('impl<O: Clone + PartialEq, A: Clone> OpenHypergraph<O, A>')
+fn(LC, 'compose', trait='Arrow', self_ty='OpenHypergraph', status='P', props=['C10'],
+   requires=['self.wf()', 'other.wf()', 'self.hypergraph.nodes@.len() + other.hypergraph.nodes@.len() <= usize::MAX', 'lawful_clone::<O>()', 'lawful_eq::<O>()'],
+   ensures=[('C10.lax-compose-defined', 'r.is_some() <==> lax_tgt_type(*self) =~= lax_src_type(*other)'),
+            ('C10.lax-compose', 'r.is_some() ==> is_lax_compose(r.unwrap(), *self, *other) && r.unwrap().wf()')],
+   proofs=[('start', '''assert forall|a: Vec<O>| #![trigger a@.len()] a@.len() == self.targets@.len() && (forall|k: int| 0 <= k < a@.len() ==> a@[k] == self.hypergraph.nodes@[self.targets@[k].0 as int]) implies a@ == lax_tgt_type(*self) by { assert(a@ =~= lax_tgt_type(*self)); }
+            assert forall|a: Vec<O>| #![trigger a@.len()] a@.len() == other.sources@.len() && (forall|k: int| 0 <= k < a@.len() ==> a@[k] == other.hypergraph.nodes@[other.sources@[k].0 as int]) implies a@ == lax_src_type(*other) by { assert(a@ =~= lax_src_type(*other)); }''')])
+endgroup()
+
+raw(r'''
+/// C10, second sentence, tensor (operands without pending unifications): the strictified lax tensor is the strict tensor of the
+/// strictified operands renumbered by a node bijection (the coequalizer of no pairs inside to_strict), hyperedges in place
+pub proof fn lemma_strict_lax_tensor<O: Clone, A: Clone>(f: OpenHypergraph<O, A>, g: OpenHypergraph<O, A>, t: OpenHypergraph<O, A>,
+        s: crate::open_hypergraph::OpenHypergraph<O, A>, sf: crate::open_hypergraph::OpenHypergraph<O, A>, sg: crate::open_hypergraph::OpenHypergraph<O, A>,
+        r: crate::open_hypergraph::OpenHypergraph<O, A>) -> (phi: Seq<usize>)
+    requires f.wf(), g.wf(), lawful_clone::<O>(), lawful_clone::<A>(),
+        f.hypergraph.quotient.0@.len() == 0 && f.hypergraph.quotient.1@.len() == 0 && g.hypergraph.quotient.0@.len() == 0 && g.hypergraph.quotient.1@.len() == 0,
+        f.hypergraph.nodes@.len() + g.hypergraph.nodes@.len() <= usize::MAX,
+        is_lax_tensor(t, f, g), t.hypergraph.nodes@ =~= f.hypergraph.nodes@ + g.hypergraph.nodes@, t.hypergraph.edges@ =~= f.hypergraph.edges@ + g.hypergraph.edges@,
+        is_strictification(s, t), is_strict_view(sf, f), is_strict_view(sg, g), is_tensor(r, sf, sg),
+    ensures node_iso(r, s, phi)
+{
+    let (mid, qf) = choose|mid: OpenHypergraph<O, A>, q: FiniteFunction|
+        #[trigger] is_quotient_of(t.hypergraph, mid.hypergraph, q)
+        && mapped(t.sources@, mid.sources@, q.table@) && mapped(t.targets@, mid.targets@, q.table@)
+        && is_strict_of(s.h, mid.hypergraph) && s.s.table@ =~= ids(mid.sources@) && s.t.table@ =~= ids(mid.targets@)
+        && (lawful_clone::<O>() ==> s.h.w@ == mid.hypergraph.nodes@) && (lawful_clone::<A>() ==> s.h.x@ == mid.hypergraph.edges@);
+    let q = qf.table@; let k = qf.target as int;
+    let nf = f.hypergraph.nodes@.len() as int; let ng = g.hypergraph.nodes@.len() as int; let m = f.hypergraph.adjacency@.len() as int; let nn = nf + ng;
+    assert(t.hypergraph.quotient.0@.len() == 0 && t.hypergraph.quotient.1@.len() == 0);
+    lemma_coeq_empty(q, k, ids(t.hypergraph.quotient.0@), ids(t.hypergraph.quotient.1@), nn);
+    let sl = src_lens(mid.hypergraph.adjacency@); let tl = tgt_lens(mid.hypergraph.adjacency@);
+    let sfl = sf.h.s.sources.table@; let sgl = sg.h.s.sources.table@; let tfl = sf.h.t.sources.table@; let tgl = sg.h.t.sources.table@;
+    assert(sl =~= sfl + sgl && tl =~= tfl + tgl) by {
+        assert forall|j: int| 0 <= j < sl.len() implies sl[j] == (sfl + sgl)[j] && tl[j] == (tfl + tgl)[j] by {
+            let e = mid.hypergraph.adjacency@[j]; let ce = t.hypergraph.adjacency@[j];
+            assert(mapped(ce.sources@, e.sources@, q) && mapped(ce.targets@, e.targets@, q));
+            if j < m { assert(ce.sources@ == f.hypergraph.adjacency@[j].sources@ && ce.targets@ == f.hypergraph.adjacency@[j].targets@); }
+            else { assert(t.hypergraph.adjacency@[m + (j - m)].sources@ =~= shift_ids(g.hypergraph.adjacency@[j - m].sources@, nf)); }
+        }
+    }
+    let lf = sf.h.s.values.table@.len() as int; let lg = sg.h.s.values.table@.len() as int;
+    let mf = sf.h.t.values.table@.len() as int; let mg = sg.h.t.values.table@.len() as int;
+    lemma_psum_concat(sfl, sgl, sgl.len() as int); lemma_psum_concat(tfl, tgl, tgl.len() as int);
+    assert(s.h.s.values.table@.len() == lf + lg && s.h.t.values.table@.len() == mf + mg);
+    assert(sf.h.s.values.target == nf && sf.h.t.values.target == nf);
+    assert forall|i: int| 0 <= i < lf + lg implies (#[trigger] s.h.s.values.table@[i]) == q[r.h.s.values.table@[i] as int] by {
+        if i < lf {
+            let (j, kk) = lemma_seg_find(sfl, i);
+            lemma_psum_prefix(sl, sfl, j); lemma_psum_prefix(sl, sfl, j + 1);
+            assert(seg_at(sl, j, kk) == seg_at(sfl, j, kk));
+            assert(s.h.s.values.table@[seg_at(sl, j, kk)] == mid.hypergraph.adjacency@[j].sources@[kk].0);
+            assert(mapped(t.hypergraph.adjacency@[j].sources@, mid.hypergraph.adjacency@[j].sources@, q));
+            assert(sf.h.s.values.table@[seg_at(sfl, j, kk)] == f.hypergraph.adjacency@[j].sources@[kk].0);
+        } else {
+            let (j, kk) = lemma_seg_find(sgl, i - lf);
+            lemma_psum_concat(sfl, sgl, j);
+            assert(seg_at(sl, m + j, kk) == lf + seg_at(sgl, j, kk));
+            assert(s.h.s.values.table@[seg_at(sl, m + j, kk)] == mid.hypergraph.adjacency@[m + j].sources@[kk].0);
+            assert(mapped(t.hypergraph.adjacency@[m + j].sources@, mid.hypergraph.adjacency@[m + j].sources@, q));
+            assert(t.hypergraph.adjacency@[m + j].sources@ =~= shift_ids(g.hypergraph.adjacency@[j].sources@, nf));
+            assert(sg.h.s.values.table@[seg_at(sgl, j, kk)] == g.hypergraph.adjacency@[j].sources@[kk].0);
+        }
+    }
+    assert forall|i: int| 0 <= i < mf + mg implies (#[trigger] s.h.t.values.table@[i]) == q[r.h.t.values.table@[i] as int] by {
+        if i < mf {
+            let (j, kk) = lemma_seg_find(tfl, i);
+            lemma_psum_prefix(tl, tfl, j); lemma_psum_prefix(tl, tfl, j + 1);
+            assert(seg_at(tl, j, kk) == seg_at(tfl, j, kk));
+            assert(s.h.t.values.table@[seg_at(tl, j, kk)] == mid.hypergraph.adjacency@[j].targets@[kk].0);
+            assert(mapped(t.hypergraph.adjacency@[j].targets@, mid.hypergraph.adjacency@[j].targets@, q));
+            assert(sf.h.t.values.table@[seg_at(tfl, j, kk)] == f.hypergraph.adjacency@[j].targets@[kk].0);
+        } else {
+            let (j, kk) = lemma_seg_find(tgl, i - mf);
+            lemma_psum_concat(tfl, tgl, j);
+            assert(seg_at(tl, m + j, kk) == mf + seg_at(tgl, j, kk));
+            assert(s.h.t.values.table@[seg_at(tl, m + j, kk)] == mid.hypergraph.adjacency@[m + j].targets@[kk].0);
+            assert(mapped(t.hypergraph.adjacency@[m + j].targets@, mid.hypergraph.adjacency@[m + j].targets@, q));
+            assert(t.hypergraph.adjacency@[m + j].targets@ =~= shift_ids(g.hypergraph.adjacency@[j].targets@, nf));
+            assert(sg.h.t.values.table@[seg_at(tgl, j, kk)] == g.hypergraph.adjacency@[j].targets@[kk].0);
+        }
+    }
+    assert forall|v: int| 0 <= v < nn implies s.h.w@[(#[trigger] q[v]) as int] == r.h.w@[v] by {
+        assert(mid.hypergraph.nodes@[q[v] as int] == t.hypergraph.nodes@[v]);
+        assert(t.hypergraph.nodes@[v] == (f.hypergraph.nodes@ + g.hypergraph.nodes@)[v]);
+    }
+    assert forall|i: int| 0 <= i < r.s.table@.len() implies (#[trigger] s.s.table@[i]) == q[r.s.table@[i] as int] by {
+        assert(ids(mid.sources@)[i] == mid.sources@[i].0);
+        if i < sf.s.table@.len() { assert(ids(f.sources@)[i] == f.sources@[i].0); }
+        else { let i2 = i - sf.s.table@.len(); assert(ids(g.sources@)[i2] == g.sources@[i2].0); assert(shift_ids(g.sources@, nf)[i2].0 == g.sources@[i2].0 + nf); }
+    }
+    assert forall|i: int| 0 <= i < r.t.table@.len() implies (#[trigger] s.t.table@[i]) == q[r.t.table@[i] as int] by {
+        assert(ids(mid.targets@)[i] == mid.targets@[i].0);
+        if i < sf.t.table@.len() { assert(ids(f.targets@)[i] == f.targets@[i].0); }
+        else { let i2 = i - sf.t.table@.len(); assert(ids(g.targets@)[i2] == g.targets@[i2].0); assert(shift_ids(g.targets@, nf)[i2].0 == g.targets@[i2].0 + nf); }
+    }
+    assert(s.h.x@ =~= r.h.x@);
+    assert(s.h.s.sources.table@ =~= r.h.s.sources.table@ && s.h.t.sources.table@ =~= r.h.t.sources.table@);
+    q
+}
+''')
+
+raw(r'''
+// #[derive(Clone)] of /repo on the two lax structs: field-wise clone (trusted, as for VecArray / Hyperedge); with lawful label
+// clones the copies have equal views
+impl<O: Clone, A: Clone> Clone for Hypergraph<O, A> {
+    #[verifier::external_body]
+    fn clone(&self) -> (r: Self)
+        ensures r.nodes@.len() == self.nodes@.len() && r.edges@.len() == self.edges@.len() && r.adjacency@ == self.adjacency@
+            && r.quotient.0@ == self.quotient.0@ && r.quotient.1@ == self.quotient.1@
+            && (lawful_clone::<O>() ==> r.nodes@ == self.nodes@) && (lawful_clone::<A>() ==> r.edges@ == self.edges@)
+    { Hypergraph { nodes: self.nodes.clone(), edges: self.edges.clone(), adjacency: self.adjacency.clone(), quotient: self.quotient.clone() } }
+}
+impl<O: Clone, A: Clone> Clone for OpenHypergraph<O, A> {
+    #[verifier::external_body]
+    fn clone(&self) -> (r: Self)
+        ensures r.sources@ == self.sources@ && r.targets@ == self.targets@
+            && r.hypergraph.nodes@.len() == self.hypergraph.nodes@.len() && r.hypergraph.edges@.len() == self.hypergraph.edges@.len() && r.hypergraph.adjacency@ == self.hypergraph.adjacency@
+            && r.hypergraph.quotient.0@ == self.hypergraph.quotient.0@ && r.hypergraph.quotient.1@ == self.hypergraph.quotient.1@
+            && (lawful_clone::<O>() ==> r.hypergraph.nodes@ == self.hypergraph.nodes@) && (lawful_clone::<A>() ==> r.hypergraph.edges@ == self.hypergraph.edges@)
+    { OpenHypergraph { sources: self.sources.clone(), targets: self.targets.clone(), hypergraph: self.hypergraph.clone() } }
+}
+''', tag='T:derive-clone-lax')
+
+group('impl<O: Clone + PartialEq, A: Clone + PartialEq> OpenHypergraph<O, A>')
+fn(LC, 'dagger', trait='Spider', self_ty='OpenHypergraph', status='P', props=['C04', 'C10'],
+   ensures=[('C04.lax-dagger', '''r.sources@ == self.targets@ && r.targets@ == self.sources@ && r.hypergraph.adjacency@ == self.hypergraph.adjacency@
+                && r.hypergraph.quotient.0@ == self.hypergraph.quotient.0@ && r.hypergraph.quotient.1@ == self.hypergraph.quotient.1@
+                && r.hypergraph.nodes@.len() == self.hypergraph.nodes@.len() && r.hypergraph.edges@.len() == self.hypergraph.edges@.len()
+                && (lawful_clone::<O>() ==> r.hypergraph.nodes@ == self.hypergraph.nodes@) && (lawful_clone::<A>() ==> r.hypergraph.edges@ == self.hypergraph.edges@)''')])
+endgroup()
+
+# ---------------------------------------------------------------------------------------------
+# C19 (forgetting, per operation): Forget::map_operation replaces a variable-labelled operation whose incident labels are all equal
+# by one merged node (by nothing when it has no incident nodes) and leaves every other operation intact.
+# ---------------------------------------------------------------------------------------------
+LV = 'src/lax/var/forget.rs'
+raw(r'''
+/// the trait HasVar of /repo: a distinguished edge label
+pub trait HasVar: Sized {
+    spec fn var_spec() -> Self;
+    fn var() -> (r: Self)
+        ensures r == Self::var_spec();
+}
+pub struct Forget;
+pub struct ForgetMonogamous;
+
+/// all elements of a ++ b are equal
+pub open spec fn all_equal<T>(a: Seq<T>, b: Seq<T>) -> bool {
+    forall|i: int, j: int| 0 <= i < a.len() + b.len() && 0 <= j < a.len() + b.len() ==> (a + b)[i] == (a + b)[j]
+}
+
+/// what forgetting does to ONE operation a : source -> target
+pub open spec fn is_forgotten_op<O, A: HasVar>(r: OpenHypergraph<O, A>, a: A, source: Seq<O>, target: Seq<O>) -> bool {
+    if a == A::var_spec() && all_equal(source, target) {
+        if source.len() == 0 && target.len() == 0 {
+            r.hypergraph.nodes@.len() == 0 && r.hypergraph.edges@.len() == 0 && r.hypergraph.adjacency@.len() == 0 && r.sources@.len() == 0 && r.targets@.len() == 0
+                && r.hypergraph.quotient.0@.len() == 0
+        } else {
+            // one merged node carrying the common label; every input and output is that node; no hyperedge
+            r.hypergraph.nodes@.len() == 1 && r.hypergraph.nodes@[0] == (source + target)[0] && r.hypergraph.edges@.len() == 0 && r.hypergraph.adjacency@.len() == 0
+                && r.hypergraph.quotient.0@.len() == 0
+                && r.sources@.len() == source.len() && (forall|i: int| 0 <= i < source.len() ==> (#[trigger] r.sources@[i]).0 == 0)
+                && r.targets@.len() == target.len() && (forall|i: int| 0 <= i < target.len() ==> (#[trigger] r.targets@[i]).0 == 0)
+        }
+    } else {
+        // the operation itself, on fresh nodes
+        r.hypergraph.nodes@ =~= source + target && r.hypergraph.edges@ =~= seq![a] && r.hypergraph.adjacency@.len() == 1
+            && r.hypergraph.quotient.0@.len() == 0
+            && r.sources@.len() == source.len() && (forall|i: int| 0 <= i < source.len() ==> (#[trigger] r.sources@[i]).0 == i)
+            && r.targets@.len() == target.len() && (forall|i: int| 0 <= i < target.len() ==> (#[trigger] r.targets@[i]).0 == source.len() + i)
+            && r.hypergraph.adjacency@[0].sources@ == r.sources@ && r.hypergraph.adjacency@[0].targets@ == r.targets@
+    }
+}
+''')
+fn(LV, 'all_elements_equal', kind='free', status='B', props=['C19'],
+   requires=['lawful_eq::<T>()'],
+   ensures=[('C19.all_elements_equal', 'r <==> all_equal(a@, b@)')],
+   note='iterator chain + all(): outside Verus; checked by the bounded module through the verif-hooks wrapper')
+fn(LV, 'map_operation', trait='Functor', self_ty='Forget', status='P', props=['C19'], rename='forget_map_operation',
+   rules={'t20': True, 'self_rename': ['this', '&Forget']}, generics_add=['O: Clone + PartialEq, A: HasVar + Clone + PartialEq'],
+   requires=['lawful_clone::<O>()', 'lawful_clone::<A>()', 'lawful_eq::<O>()', 'lawful_eq::<A>()'],
+   ensures=[('C19.forget-op', 'is_forgotten_op(r, *a, source@, target@)')],
+   loops={1: {'elem_ty': 'O', 'invariant': ['vx_k1 <= source@.len()', 'vx_v1@ =~= source@.subrange(0, vx_k1 as int)', 'lawful_clone::<O>()'], 'decreases': 'source@.len() - vx_k1'},
+          2: {'elem_ty': 'O', 'invariant': ['vx_k2 <= target@.len()', 'vx_v2@ =~= target@.subrange(0, vx_k2 as int)', 'lawful_clone::<O>()'], 'decreases': 'target@.len() - vx_k2'}})
+raw(r'''
+/// forget_monogamous: only 1 -> 1 variable operations are forgotten
+pub open spec fn is_forgotten_mono_op<O, A: HasVar>(r: OpenHypergraph<O, A>, a: A, source: Seq<O>, target: Seq<O>) -> bool {
+    if source.len() == 1 && target.len() == 1 { is_forgotten_op(r, a, source, target) }
+    else {
+        r.hypergraph.nodes@ =~= source + target && r.hypergraph.edges@ =~= seq![a] && r.hypergraph.adjacency@.len() == 1
+            && r.hypergraph.quotient.0@.len() == 0
+            && r.sources@.len() == source.len() && (forall|i: int| 0 <= i < source.len() ==> (#[trigger] r.sources@[i]).0 == i)
+            && r.targets@.len() == target.len() && (forall|i: int| 0 <= i < target.len() ==> (#[trigger] r.targets@[i]).0 == source.len() + i)
+            && r.hypergraph.adjacency@[0].sources@ == r.sources@ && r.hypergraph.adjacency@[0].targets@ == r.targets@
+    }
+}
+''')
+fn(LV, 'map_operation', trait='Functor', self_ty='ForgetMonogamous', status='P', props=['C19'], rename='forget_monogamous_map_operation',
+   rules={'t20': True, 'self_rename': ['this', '&ForgetMonogamous']}, generics_add=['O: Clone + PartialEq, A: HasVar + Clone + PartialEq'],
+   requires=['lawful_clone::<O>()', 'lawful_clone::<A>()', 'lawful_eq::<O>()', 'lawful_eq::<A>()'],
+   ensures=[('C19.forget-monogamous-op', 'is_forgotten_mono_op(r, *a, source@, target@)')],
+   loops={1: {'elem_ty': 'O', 'invariant': ['vx_k1 <= source@.len()', 'vx_v1@ =~= source@.subrange(0, vx_k1 as int)', 'lawful_clone::<O>()'], 'decreases': 'source@.len() - vx_k1'},
+          2: {'elem_ty': 'O', 'invariant': ['vx_k2 <= target@.len()', 'vx_v2@ =~= target@.subrange(0, vx_k2 as int)', 'lawful_clone::<O>()'], 'decreases': 'target@.len() - vx_k2'},
+          3: {'elem_ty': 'O', 'invariant': ['vx_k3 <= source@.len()', 'vx_v3@ =~= source@.subrange(0, vx_k3 as int)', 'lawful_clone::<O>()'], 'decreases': 'source@.len() - vx_k3'},
+          4: {'elem_ty': 'O', 'invariant': ['vx_k4 <= target@.len()', 'vx_v4@ =~= target@.subrange(0, vx_k4 as int)', 'lawful_clone::<O>()'], 'decreases': 'target@.len() - vx_k4'}})
+
+# ---------------------------------------------------------------------------------------------
+# C13 (native lax functor path): the refusal clause and the structure of the witness.  The lax `Functor` trait has a method
+# returning `impl ExactSizeIterator`, which Verus rejects: the trait is declared here WITHOUT its methods (it is only passed
+# through by the functions below); map_operations / map_objects / the lax spider_map_arrow are assumed with no postcondition at
+# all (status B, `ensures true`), so nothing about the image itself is claimed here -- that stays with the bounded module C13.
+# ---------------------------------------------------------------------------------------------
+LF = 'src/lax/functor/traits.rs'
+raw(r'''
+pub trait Functor<O1, A1, O2, A2> {}
+
+/// sizes of a nested list
+pub open spec fn nested_lens<T>(fw: Seq<Vec<T>>) -> Seq<usize> { Seq::new(fw.len(), |i: int| fw[i]@.len() as usize) }
+''', tag='T:lax-Functor-trait')
+fn(LF, 'map_operations', kind='free', status='B', props=['C13'], ensures=[('C13.assumed-nothing-1', 'true')], note='generic over the lax Functor trait (impl-Trait returns): no contract assumed')
+fn(LF, 'map_objects', kind='free', status='B', props=['C13'], ensures=[('C13.assumed-size', '2 * total(nested_lens(r@)) + 1 < usize::MAX && r@.len() < usize::MAX')],
+   note='generic over the lax Functor trait (impl-Trait returns): nothing assumed about the contents; machine arithmetic only: the object images fit in memory (twice their total length is below usize::MAX)')
+fn(LF, 'spider_map_arrow', kind='free', status='B', props=['C13'], ensures=[('C13.assumed-nothing-3', 'true')], note='flat_map / copied pipelines: no contract assumed')
+fn(LF, 'try_define_map_arrow', kind='free', status='P', props=['C13'],
+   ensures=[('C13.refuses-pending', 'f.hypergraph.quotient.0@.len() != 0 ==> r.is_none()')])
+fn(LF, 'map_arrow_witness', kind='free', status='P', props=['C13'], rules={'t9': True},
+   requires=['true'],
+   ensures=[('C13.witness-refuses-pending', 'f.hypergraph.quotient.0@.len() != 0 ==> r.is_none()'),
+            ('C13.witness-structure', '''match r { None => true, Some(rw) => ({ let w = rw.1;
+                exists|fw: Seq<Vec<O2>>| fw.len() == w.sources.table@.len() && w.sources.table@ =~= nested_lens(fw) && w.values.table@.len() == total(nested_lens(fw))
+                    && (forall|m: int| 0 <= m < w.values.table@.len() ==> (#[trigger] w.values.table@[m]) == total(nested_lens(fw)) + m) && w.values.target == rw.0.hypergraph.nodes@.len() && w.wf() }) }''')],
+   loops={1: {'iter': 'it', 'invariant': ['2 * total(nested_lens(fw@)) + 1 < usize::MAX', 'it.seq().len() == fw@.len()', 'forall|k: int| 0 <= k < fw@.len() ==> *it.seq()[k] == fw@[k]',
+                                         'vx_s1 == psum(nested_lens(fw@), it.index@ as int)'],
+              'body_pre': 'proof { assert(*v == fw@[it.index@ as int]); lemma_psum_mono(nested_lens(fw@), it.index@ as int + 1, fw@.len() as int); assert(psum(nested_lens(fw@), it.index@ as int + 1) == psum(nested_lens(fw@), it.index@ as int) + nested_lens(fw@)[it.index@ as int]); }'},
+          2: {'iter': 'it', 'elem_ty': 'usize', 'invariant': ['it.seq().len() == fw@.len()', 'forall|k: int| 0 <= k < fw@.len() ==> *it.seq()[k] == fw@[k]',
+                                                             'vx_v2@ =~= nested_lens(fw@).subrange(0, it.index@ as int)'],
+              'body_pre': 'proof { assert(*v == fw@[it.index@ as int]); }'}},
+   proofs=[('before:let witness = IndexedCoproduct::new(fw_sizes, witness_values)?;', '''assert(fw_sizes.table@ =~= nested_lens(fw@));''')])
+fn(LF, 'map_half_spider', kind='free', status='P', props=['C13'], rules={'t9': True},
+   requires=['total(nested_lens(fw@)) + 1 <= usize::MAX', 'fw@.len() < usize::MAX', 'node_ids@.len() < usize::MAX',
+             'ids_ok(node_ids@, fw@.len() as int) ==> total(kseq(nested_lens(fw@), ids(node_ids@))) <= usize::MAX'],
+   ensures=[('C13.map_half_spider-defined', 'r.is_some() <==> ids_ok(node_ids@, fw@.len() as int)'),
+            ('C13.map_half_spider', '''r.is_some() ==> ({ let s = nested_lens(fw@); let k = kseq(s, ids(node_ids@)); let o = r.unwrap();
+                o.target == total(s) && o.table@.len() == total(k) && o.wf()
+                && (forall|i: int, j: int| 0 <= i < k.len() && 0 <= j < k[i] ==> o.table@[#[trigger] seg_at(k, i, j)] == psum(s, node_ids@[i].0 as int) + j) })''')],
+   loops={1: {'iter': 'it', 'invariant': ['total(nested_lens(fw@)) + 1 <= usize::MAX', 'it.seq().len() == fw@.len()', 'forall|k: int| 0 <= k < fw@.len() ==> *it.seq()[k] == fw@[k]',
+                                         'vx_s1 == psum(nested_lens(fw@), it.index@ as int)'],
+              'body_pre': 'proof { assert(*v == fw@[it.index@ as int]); lemma_psum_mono(nested_lens(fw@), it.index@ as int + 1, fw@.len() as int); assert(psum(nested_lens(fw@), it.index@ as int + 1) == psum(nested_lens(fw@), it.index@ as int) + nested_lens(fw@)[it.index@ as int]); }'},
+          2: {'iter': 'it', 'elem_ty': 'usize', 'invariant': ['it.seq().len() == fw@.len()', 'forall|k: int| 0 <= k < fw@.len() ==> *it.seq()[k] == fw@[k]',
+                                                             'vx_v2@ =~= nested_lens(fw@).subrange(0, it.index@ as int)'],
+              'body_pre': 'proof { assert(*v == fw@[it.index@ as int]); }'},
+          3: {'iter': 'it', 'elem_ty': 'usize', 'invariant': ['it.seq().len() == node_ids@.len()', 'forall|k: int| 0 <= k < node_ids@.len() ==> *it.seq()[k] == node_ids@[k]',
+                                                             'vx_v3@ =~= ids(node_ids@).subrange(0, it.index@ as int)'],
+              'body_pre': 'proof { assert(*n == node_ids@[it.index@ as int]); }'}},
+   proofs=[('before:let fw_sizes =', '''assert forall|i: int| 0 <= i < fw@.len() implies (#[trigger] nested_lens(fw@)[i]) < fw_total + 1 by {
+                lemma_psum_mono(nested_lens(fw@), 0, i); lemma_psum_mono(nested_lens(fw@), i + 1, fw@.len() as int);
+                assert(psum(nested_lens(fw@), i + 1) == psum(nested_lens(fw@), i) + nested_lens(fw@)[i]);
+            }'''),
+           ('before:let node_count = fw.len();', '''assert(fw_sizes.table@ =~= nested_lens(fw@));'''),
+           ('before:fw_sizes.injections(&f)', '''assert(f.table@ =~= ids(node_ids@));
+            assert(in_bounds(ids(node_ids@), fw@.len() as int) <==> ids_ok(node_ids@, fw@.len() as int)) by {
+                if ids_ok(node_ids@, fw@.len() as int) { assert forall|i: int| 0 <= i < node_ids@.len() implies ids(node_ids@)[i] < fw@.len() by { assert(node_ids@[i].0 < fw@.len()); } }
+                if in_bounds(ids(node_ids@), fw@.len() as int) { assert forall|i: int| 0 <= i < node_ids@.len() implies (#[trigger] node_ids@[i]).0 < fw@.len() by { assert(ids(node_ids@)[i] < fw@.len()); } }
+            }''')])
